@@ -29,8 +29,11 @@ Qed.
 Lemma judge_int_obs_accepts z : int_in_range z = true ->
   judge_int_obs (int_observe z) = if (z =? int_min)%Z then Fails cls_as_negative else Holds.
 Proof.
-  intros R. unfold judge_int_obs, int_observe. cbn [io_val io_cbor io_str_rt io_cbor_rt io_json_rt io_pos io_neg io_i32].
+  intros R. unfold judge_int_obs, int_observe. cbn [io_val io_cbor io_str_rt io_cbor_rt io_json_rt io_meta_json io_pos io_neg io_i32].
   rewrite R. cbn [negb]. rewrite (int_from_bytes_roundtrip z R), (int_decimal_roundtrip z R), !resZ_eqb_refl. cbn [andb negb].
+  assert (MJ : match meta_int_to_json z with Ok t => resZ_eqb (parse_i128 t) (Ok z) | Err => true | _ => false end = true).
+  { destruct (meta_int_to_json_total z) as [E | [t E]]; rewrite E; [reflexivity|]. rewrite (meta_int_to_json_exact z t E). apply resZ_eqb_refl. }
+  rewrite MJ. cbn [negb].
   destruct (z =? int_min)%Z eqn:M.
   - apply Z.eqb_eq in M. subst z. reflexivity.
   - apply Z.eqb_neq in M. destruct (int_accessors_exact z R M) as [P [Ng I]]. rewrite P, Ng, I, !optN_eqb_refl, optZ_eqb_refl.
@@ -233,6 +236,19 @@ Proof.
   rewrite C, N.eqb_refl, all_keys_intro by (intros p n; rewrite Q; apply N.eqb_refl). exact W.
 Qed.
 
+Lemma spec_msub_accepts a b : value_wf a -> value_wf b ->
+  spec_csub (mkValue 0 (multiasset_of a)) (mkValue 0 (multiasset_of b))
+            (mkValue 0 (Some (ma_sub (opt_ma (multiasset_of a)) (opt_ma (multiasset_of b))))) = true.
+Proof.
+  intros Wa Wb. destruct (ma_sub_spec _ _ (opt_ma_wf a Wa) (opt_ma_wf b Wb)) as [W Q]. unfold spec_csub. cbn [coin].
+  rewrite all_keys_intro.
+  - unfold value_wfb. cbn [coin multiasset_of]. rewrite W. reflexivity.
+  - intros p n. rewrite !opt_ma_qty_unfold. cbn [multiasset_of opt_ma]. rewrite Q.
+    replace (opt_ma (multiasset_of {| coin := 0; multiasset_of := multiasset_of a |})) with (opt_ma (multiasset_of a)) by reflexivity.
+    replace (opt_ma (multiasset_of {| coin := 0; multiasset_of := multiasset_of b |})) with (opt_ma (multiasset_of b)) by reflexivity.
+    apply N.eqb_refl.
+Qed.
+
 Lemma le_keys_leb a b : value_wf a -> value_wf b -> le_keys a b = value_leb_sem a b.
 Proof.
   intros Wa Wb. destruct (value_leb_sem a b) eqn:L.
@@ -254,7 +270,7 @@ Qed.
 Theorem judge_val_accepts a b : value_wf a -> value_wf b -> judge_val a b (model_val a b) = Holds.
 Proof.
   intros Wa Wb. unfold judge_val, model_val.
-  cbn [vo_add vo_add_rev vo_sub vo_csub vo_undo vo_cmp vo_lt vo_le vo_gt vo_ge vo_eq vo_zero].
+  cbn [vo_add vo_add_rev vo_sub vo_csub vo_msub vo_undo vo_cmp vo_lt vo_le vo_gt vo_ge vo_eq vo_zero].
   unfold value_wf in Wa, Wb. rewrite Wa, Wb. cbn [andb negb].
   rewrite (spec_add_accepts a b Wa Wb), (spec_add_accepts b a Wb Wa). cbn [andb negb].
   pose proof (value_add_comm a b Wa Wb) as CM. unfold same_outcome in CM.
@@ -262,6 +278,7 @@ Proof.
                | Ok c, Ok c' => value_eqb_sem_keys c c' | Err, Err => true | _, _ => false end = true).
   { destruct (value_checked_add a b), (value_checked_add b a); try contradiction; [apply value_eqb_sem_keys_intro; exact CM | reflexivity]. }
   rewrite T1. cbn [negb]. rewrite (spec_sub_accepts a b Wa Wb). cbn [negb]. rewrite (spec_csub_accepts a b Wa Wb). cbn [negb].
+  rewrite (spec_msub_accepts a b Wa Wb). cbn [negb].
   assert (T2 : match value_checked_add a b, match value_checked_add a b with Ok c => Some (value_checked_sub c b) | _ => None end with
                | Ok _, Some (Ok d) => value_eqb_sem_keys d a | Ok _, _ => false | _, None => true | _, Some _ => false end = true).
   { destruct (value_checked_add a b) as [c| | |] eqn:E; try reflexivity.
